@@ -1,11 +1,10 @@
-\* Decides C19 on the COMPLETE reachable state graph (histories of any length) of every stack without a
-\* Versioned layer (one view), incl. two stacked LRU layers and foreign undecodable backend writes.
+\* thorough tier: as MC_quick_single plus two stacked LRU layers and foreign writes with both TTLs.
 CONSTANTS
   StackIds = {1, 2, 4, 7, 8, 17}
   Caps = {1, 2}
   DTTLs = {1, 2}
-  Keys = {"k1", "k2"}
-  Values = {"a", "b"}
+  Keys = {k1, k2}
+  Values = {a, b}
   TTLs = {1, 2}
   Deltas = {1}
   NViews = 2
@@ -16,6 +15,7 @@ CONSTANTS
 INIT Init
 NEXT Next
 VIEW View
+SYMMETRY Sym
 INVARIANTS TypeOK EncodingConsistent KeysWellPlaced PeekNeverWrong PeekNeverAfterDeadline PeekBoundedStaleness
 PROPERTIES NeverWrong NeverAfterDelete NeverAfterDeadline NeverCorrupt ReadIsPeek NoAlias AddSemantics ReadYourWrites DeleteRemoves
 CHECK_DEADLOCK FALSE
